@@ -280,8 +280,17 @@ func (u *Unmarshaler) fillSliceValue(slice reflect.Value, index int,
 				return errTypeMismatch
 			}
 
+			// 同种类的已定义类型（如 type Flag bool）不可直接赋值，需要转换
+			rv := reflect.ValueOf(value)
+			if !rv.Type().AssignableTo(baseType) {
+				if !rv.Type().ConvertibleTo(baseType) {
+					return errTypeMismatch
+				}
+				rv = rv.Convert(baseType)
+			}
+
 			target := reflect.New(baseType).Elem()
-			target.Set(reflect.ValueOf(value))
+			target.Set(rv)
 			ithVal.Set(target.Addr())
 			return nil
 		}
